@@ -31,8 +31,11 @@ ModelB == [
     sh |-> << <<"e", "Shock">> >>, pa |-> << <<"a", "">>, <<"b", "">> >>, mv |-> << <<"o", "">> >>,
     logs |-> {"y"}, flag |-> TRUE,
     teq |-> << EqF("", V("x_n", 0), <<"add", <<"mul", P("a"), V("x_n", CNeg1)>>, V("e", 0)>>, "subst"),
-               Eqn("Macros", V("k", 0), <<"add", <<"add", Mac("shift", V("x_n", 0), CNeg2), Mac("diff", V("x_n", 0), Dflt)>>,
-                                               <<"add", Mac("roc", V("y", 0), CNeg1), Mac("mov_sum", V("k", CNeg1), Dflt)>> >>, <<>>, <<>>),
+               Eqn("Macros", V("k", 0), <<"add", <<"add", <<"add", Mac("shift", V("x_n", 0), CNeg2), Mac("diff", V("x_n", 0), Dflt)>>,
+                                                        <<"add", Mac("roc", V("y", 0), CNeg1), Mac("mov_sum", V("k", CNeg1), Dflt)>> >>,
+                                               \* compound arguments inside products: the expansion has to stay one factor
+                                               <<"add", <<"mul", N(2), Mac("shift", <<"add", V("x_n", 0), V("y", 0)>>, CNeg1)>>,
+                                                        <<"mul", N(3), Mac("diff", <<"sub", V("x_n", 0), V("y", 0)>>, Dflt)>> >> >>, <<>>, <<>>),
                EqF("", V("y", 0), <<"add", <<"add", Mac("mov_prod", V("y", CNeg1), 2), Mac("mov_avg", V("x_n", 0), 3)>>,
                                         <<"add", Mac("diff", <<"fn", "log", V("x_n", 0)>>, CNeg1), N(1)>> >>, "if"),
                EqF("", V("ca", 0), <<"add", <<"mul", P("a"), V("x_n", 0)>>, N(1)>>, "for"),
@@ -40,7 +43,18 @@ ModelB == [
     meq |-> << Eqn("Meas", V("o", 0), <<"mul", V("y", 0), Mac("roc", V("x_n", 0), Dflt)>>, <<>>, <<>>) >> ]
 \* every loggable variable is a log-variable: rendered as !all-but with an empty list
 ModelC == [ModelB EXCEPT !.logs = {"x_n", "k", "y", "ca", "cb", "o"}]
-Models == [A1 |-> ModelA(TRUE), A2 |-> ModelA(FALSE), B |-> ModelB, C |-> ModelC]
+\* pseudofunctions inside pseudofunctions (the meaning is Expand applied inside out)
+ModelD == [
+    tv |-> << <<"x_n", "">>, <<"k", "">>, <<"y", "">>, <<"ca", "">>, <<"cb", "">> >>,
+    sh |-> << <<"e", "">> >>, pa |-> << <<"a", "">>, <<"b", "">> >>, mv |-> << <<"o", "">> >>,
+    logs |-> {"y"}, flag |-> TRUE,
+    teq |-> << EqF("", V("x_n", 0), <<"add", <<"mul", P("a"), V("x_n", CNeg1)>>, V("e", 0)>>, "none"),
+               Eqn("", V("k", 0), <<"add", Mac("diff", Mac("diff", V("x_n", 0), Dflt), Dflt), Mac("mov_sum", Mac("diff", V("k", CNeg1), CNeg1), CNeg2)>>, <<>>, <<>>),
+               Eqn("", V("y", 0), <<"add", Mac("pct", Mac("roc", V("y", 0), CNeg1), CNeg1), N(1)>>, <<>>, <<>>),
+               EqF("", V("ca", 0), <<"add", <<"mul", P("a"), V("x_n", 0)>>, N(1)>>, "none"),
+               EqF("", V("cb", 0), <<"add", <<"mul", P("b"), V("x_n", 0)>>, N(1)>>, "none") >>,
+    meq |-> << Eqn("", V("o", 0), V("y", 0), <<>>, <<>>) >> ]
+Models == [A1 |-> ModelA(TRUE), A2 |-> ModelA(FALSE), B |-> ModelB, C |-> ModelC, D |-> ModelD]
 
 Choices == [kw : {"under", "hyphen", "short"}, br : {"curly", "square"}, plus : BOOLEAN, eq : {"plain", "colon"}, pw : {"caret", "stars"},
             sep : {"comma", "space", "nl"}, cm : 0..2, logstyle : {"list", "allbut"}, mac : {"long", "short"}, dflt : BOOLEAN,
@@ -127,17 +141,19 @@ ChoiceIdx(c) == BIx(c.br = "square") + 2 * BIx(c.plus) + 4 * BIx(c.eq = "colon")
                 + 144 * BIx(c.logstyle = "allbut") + 288 * BIx(c.mac = "short") + 576 * BIx(c.dflt) + 1152 * BIx(c.sp = " ")
                 + 7 * (CASE c.fac = "plain" -> 0 [] c.fac = "for" -> 1 [] c.fac = "forctx" -> 2 [] c.fac = "if" -> 3 [] c.fac = "subst" -> 4 [] c.fac = "all" -> 5)
                 + 3 * (CASE c.kw = "under" -> 0 [] c.kw = "hyphen" -> 1 [] c.kw = "short" -> 2)
-Init == sc \in [mid : {"A1", "A2", "B", "C"}, kw : {"under", "hyphen", "short"}, fac : {"plain", "for", "forctx", "if", "subst", "all"}] /\ out = <<>> /\ done = FALSE
+Init == sc \in [mid : {"A1", "A2", "B", "C"}, kw : {"under", "hyphen", "short"}, fac : {"plain", "for", "forctx", "if", "subst", "all"}]
+                \cup [mid : {"D"}, kw : {"under"}, fac : {"plain"}]
+        /\ out = <<>> /\ done = FALSE
 \* the remaining choices are made in a second step (all workers enumerate them)
 Pick == /\ ~done /\ "ch" \notin DOMAIN sc /\ UNCHANGED <<out, done>>
-        /\ \E c \in Choices : c.kw = sc.kw /\ c.fac = sc.fac /\ ChoiceIdx(c) % QuickMod = QuickSel /\ sc' = [mid |-> sc.mid, kw |-> sc.kw, fac |-> sc.fac, ch |-> c]
+        /\ \E c \in Choices : c.kw = sc.kw /\ c.fac = sc.fac /\ ChoiceIdx(c) % QuickMod = QuickSel /\ (sc.mid = "D" => (c.cm = 0 /\ c.sep = "comma" /\ c.logstyle = "list")) /\ sc' = [mid |-> sc.mid, kw |-> sc.kw, fac |-> sc.fac, ch |-> c]
 Compute == /\ ~done /\ "ch" \in DOMAIN sc /\ done' = TRUE /\ UNCHANGED sc
            /\ \E m \in {Models[sc.mid]} :
                 out' = [text |-> Render(m, sc.ch),
                         expanded |-> \A i \in 1..(Len(m.teq) + Len(m.meq)) :
                                         LET q == IF i <= Len(m.teq) THEN m.teq[i] ELSE m.meq[i - Len(m.teq)] IN ~HasMac(Expand(q.rhs)) /\ ~HasMac(Expand(q.lhs))]
 \* the meanings of the base models, in a run of their own
-InitM == sc \in [mid : {"A1", "A2", "B", "C"}] /\ out = <<>> /\ done = FALSE
+InitM == sc \in [mid : {"A1", "A2", "B", "C", "D"}] /\ out = <<>> /\ done = FALSE
 ComputeM == ~done /\ done' = TRUE /\ UNCHANGED sc /\ out' = [meaning |-> Meaning(Models[sc.mid]), expanded |-> TRUE]
 SpecM == InitM /\ [][ComputeM]_vars
 Next == Pick \/ Compute
